@@ -10,36 +10,45 @@ import gen_codec
 PROPERTIES = ["C18"]
 MANIFEST = {
     "C18": {
-        "technique": "Lean 4 proof over a checked-memory model of Unicode.hpp / String::fromHex / fromBase64 / integer conversions "
-                     "(tables, masks, guard and encoder range tests regenerated from the sources by tools/gen_codec.py) + differential "
-                     "correspondence of the compiled model with the real code under ASan/UBSan, incl. all 1,114,112 code points",
-        "text": "Theorems (all inputs, no bounds; Nstd/Codec/Props.lean, 27 obligations, none partial): toString(cp) = RFC 3629 encoding and "
+        "technique": "Lean 4 proof over a checked-memory model of Unicode.hpp / String::fromHex / fromBase64 / the numeric conversions "
+                     "(tables, masks, guard and encoder range tests regenerated from the sources by tools/gen_codec.py; Unicode::length, String::isSpace and "
+                     "the case maps as tables obtained by executing the current sources) + differential correspondence of the compiled model with the real "
+                     "code under ASan/UBSan, incl. all 1,114,112 code points, and of the libc definitions with the real libc",
+        "text": "Theorems (all inputs, no bounds; Nstd/Codec/Props.lean + PropsNum.lean + PropsUtf8.lean, none partial): toString(cp) = RFC 3629 encoding and "
                 "fromString(toString(cp)) = cp for every cp < 0x110000 (range lemmas, no enumeration), also in front of arbitrary trailing "
-                "bytes; empty result above U+10FFFF; isValid = the structural well-formedness predicate for EVERY byte string and accepts every "
-                "concatenation of encoded code points; fromString/isValid never read outside the range they are given and length() never "
-                "leaves the 5-entry offset table, for arbitrary bytes and lengths; fromHex = upper-case hex text of every byte string; "
-                "fromBase64 = Spec.b64Decode for EVERY input (full functional spec), inverts the RFC 4648 encoding of every byte string, "
+                "bytes; empty result above U+10FFFF; fromString returns the payload bits of EVERY structurally complete sequence and toString(fromString(s)) = s "
+                "exactly for the shortest forms up to U+10FFFF; isValid = the structural well-formedness predicate for EVERY byte string, accepts every "
+                "RFC 3629 string (strictly more: the ABNF is proved equal to structural + shortest + non-surrogate); fromString/isValid never read outside "
+                "the range they are given and length() never leaves the 5-entry offset table; fromHex = upper-case hex text of every byte string, "
+                "inverted by the specification decoder; fromBase64 = Spec.b64Decode for EVERY input, inverts the RFC 4648 encoding of every byte string, "
                 "reads its table below its size and writes inside the reserved buffer (false for the unpatched signed guard: defect D26); "
-                "the four integer round trips over the full range and the parse of arbitrary numerals (white space, sign, leading "
-                "zeros, junk) under the stated libc behaviour.  Tie to the current sources on every run: generated tables / guard / "
+                "numeric clause: the eight to* overloads (member + static) on EVERY text - numeral of any magnitude (saturation / ULLONG_MAX / negation in the "
+                "unsigned type / truncation to uint / where ISO C leaves atoi undefined and what glibc does), text without a number (0), embedded NUL - "
+                "the printed numerals are canonical, all round trips incl. the minimum values through both overload families, which branch of String::printf "
+                "runs; fromDouble/toDouble round trip for every double that is a multiple of 1/64 (where %f is exact), relative to an exact-on-representable strtod; "
+                "isSpace / toLowerCase(char) / toUpperCase(char) for all 256 bytes.  Tie to the current sources on every run: generated tables / guard / "
                 "switch expressions / masks / range tests (the theorems are stated over them), identical op lines through the real "
-                "code (exactly sized heap buffers; every public overload named by the property) and the compiled model with Python "
-                "codecs/base64/int/float as independent reference, and a test of the Lean specifications against Python.",
+                "code (exactly sized heap buffers; every public overload named by the property, both overload families printed) and the compiled model with Python "
+                "codecs/base64/int/float as independent reference, direct calls of atoi/strtol/strtoul/strtoll/strtoull/atoll/snprintf compared with the Lean "
+                "definitions of libc, and a test of the Lean specifications against Python.",
         "note": "Trusted: Lean kernel + propext/Classical.choice/Quot.sound; the hand translation of the control flow of "
                 "Unicode.hpp and of fromHex/fromBase64 into Nstd/Codec/Model.lean (validated by the correspondence run, not proved); "
-                "the translator tools/gen_codec.py (Unicode::length as a table by executing harness/codec_probe.cpp built from the current "
+                "the translator tools/gen_codec.py (Unicode::length, String::isSpace, toLowerCase/toUpperCase(char) as tables by executing harness/codec_probe.cpp built from the current "
                 "sources; otherwise regexes + a small C expression/statement translator that interprets the per-byte tests of fromBase64 in "
-                "source order; a shape it cannot interpret is reported as a broken tie); libc behaviour (vsnprintf %d/%u/%lld/%llu, strtol/strtoul/strtoll/strtoull, glibc atoi/atoll, LP64) is "
-                "ASSUMED as Lean definitions - the integer theorems are relative to them, the real libc is exercised only by the "
-                "correspondence run; toDouble/fromDouble have no model and no theorem (harness vs Python float only); String's buffer "
+                "source order; a shape it cannot interpret is reported as a broken tie); libc behaviour (vsnprintf %d/%u/%lld/%llu/%f, strtol/strtoul/strtoll/strtoull, glibc atoi/atoll, "
+                "<cctype> in the C locale, LP64) is ASSUMED as Lean definitions - the numeric theorems are relative to them; they are compared with the real libc by the lcs/lcf/cls/fd lines "
+                "of every run (a test); strtod is a parameter with the stated assumption StrtodExact (exact on representable decimal texts) - for arbitrary texts toDouble is only "
+                "tested (executable correctly rounding strtodRef of the driver vs libc vs Python float; hex floats not modelled); the double round trip is false beyond multiples of 1/64 "
+                "(six decimals) and is not claimed there; String's buffer "
                 "management (reserve/resize/append, area Str) is not modelled: the result buffers of fromBase64 (inlen bytes) and "
                 "fromHex (2*size bytes) are fixed blocks with checked writes (fromBase64: exactly the bytes of its `result.reserve(E)` request).  The exhaustive runs (all code points, all byte strings "
                 "<= 3 bytes, all base64 strings <= 4 symbols over 68 symbols) are TESTS of the tie, not the proof.  isValid accepts "
-                "over-long forms / surrogates / > U+10FFFF by design of the code; isValid_spec states exactly that.",
+                "over-long forms / surrogates / > U+10FFFF by design of the code; isValid_spec, abnf_iff and rfc3629_accepted state exactly that.  The _UNICODE (UTF-16) branch of "
+                "Unicode::append is not compiled here and not modelled; libnstd has no toHex/toBase64/hex decoder.",
         "design_ref": "DESIGN.md 3/C18",
     }
 }
-PROPS = ["Nstd.Codec.Props", "Nstd.Codec.PropsNum"]
+PROPS = ["Nstd.Codec.Props", "Nstd.Codec.PropsNum", "Nstd.Codec.PropsUtf8"]
 DRIVER = "drv_codec"
 LEAN_TARGETS = PROPS + [DRIVER]
 SOURCES = ["codec.cpp", C.REPO / "src/String.cpp", C.REPO / "src/Memory.cpp"]
@@ -176,7 +185,7 @@ def ref_line(line):
             v = int(t[1], 16)
             if signed and v >= 1 << (bits - 1):
                 v -= 1 << bits
-            return f"{op} {v} {v % (1 << bits):0{bits // 4}x} {v % (1 << bits):0{bits // 4}x}"
+            return f"{op} {v} {v} {v % (1 << bits):0{bits // 4}x} {v % (1 << bits):0{bits // 4}x}"
         if op[0] == "p" and op[1:] in INT:
             bits, signed = INT[op[1:]]
             v = c_number(unhx(t[1]))
@@ -569,6 +578,30 @@ def b64_lenient_ref(inp):
     return (bits >> (n % 8)).to_bytes(n // 8, "big") if n >= 8 else b""
 
 
+ONE_SEQ = re.compile(rb"[\x00-\x7f]|[\xc0-\xdf][\x80-\xbf]|[\xe0-\xef][\x80-\xbf]{2}|[\xf0-\xf7][\x80-\xbf]{3}", re.S)
+
+
+def rfc_ref(r):
+    """RFC 3629 well-formedness = Python's strict utf-8 decoder accepts; one sequence: payload bits, shortest form = re-encoding
+    (surrogatepass) gives the same bytes"""
+    try:
+        r.decode("utf-8")
+        strict = 1
+    except UnicodeDecodeError:
+        strict = 0
+    one = 1 if ONE_SEQ.fullmatch(r) else 0
+    val = 0
+    if 1 <= len(r) <= 4:
+        lead_bits = {1: r[0], 2: r[0] - 0xC0, 3: r[0] - 0xE0, 4: r[0] - 0xF0}[len(r)]
+        val = max(lead_bits, 0)
+        for c in r[1:]:
+            val = val * 64 + max(c - 0x80, 0)
+    if one:
+        short = 1 if val < 0x110000 and enc_ref(val) == r else 0
+        return f"spec-rfc {strict} 1 {val} {short}"
+    return f"spec-rfc {strict} 0 ? ?"
+
+
 def spec_test(ctx, driver):
     """the specifications the theorems are stated against (Spec.utf8, Spec.wellFormed, Spec.rfc4648Encode, Spec.b64Decode, Spec.upperHex,
     decDigits/decimalValue) evaluated by the compiled driver and compared with Python: a TEST of the specs"""
@@ -596,11 +629,15 @@ def spec_test(ctx, driver):
     for r in wfs:
         lines.append(f"spec-wf {hx(r)}")
         want.append(f"spec-wf {1 if STRUCT_VALID.fullmatch(r) else 0}")
+    for r in wfs + [enc_ref(c) for c in CP_BOUNDS if c < 0x110000] + [bytes([a, b, 0x80]) for a in (0xE0, 0xED, 0xEF) for b in range(0x80, 0xC0)] + \
+            [bytes([a, b, 0x80, 0x80]) for a in range(0xF0, 0xF8) for b in range(0x80, 0xC0, 3)]:
+        lines.append(f"spec-rfc {hx(r)}")
+        want.append(rfc_ref(r))
     for v in int_values(rng, 64, False, 3000) + [1 << 64, 10 ** 30 + 7]:
         lines.append(f"spec-dec {v}")
         want.append(f"spec-dec {v} {v}")
     out, rc, err = C.run_lines(driver, lines, timeout=300)
-    bad = [(l, w, o) for l, w, o in zip(lines, want, out + [None] * (len(lines) - len(out))) if w != o]
+    bad = [(l, w, o) for l, w, o in zip(lines, want, out + [None] * (len(lines) - len(out))) if o is None or not ref_eq(o, w)]
     ctx.cov["spec_lines_checked_against_python"] = len(lines)
     ctx.cov["evaluations"] += len(lines)
     ctx.log(f"spec test: {len(lines)} lines of Spec.* vs Python, {len(bad)} mismatch(es)")
@@ -627,9 +664,9 @@ def double_ref(line):
     v = struct.unpack(">d", bytes.fromhex(t[1]))[0]
     if v != v:
         text = "-nan" if int(t[1], 16) >> 63 else "nan"
-        return f"fd {text} {'fff8' if text[0] == '-' else '7ff8'}{'0' * 12} 1"
+        return f"fd {text} same {'fff8' if text[0] == '-' else '7ff8'}{'0' * 12} 1"
     text = "%f" % v
-    return f"fd {text} " + struct.pack(">d", float(text)).hex() + f" {1 if len(text) < 203 else 0}"
+    return f"fd {text} same " + struct.pack(">d", float(text)).hex() + f" {1 if len(text) < 203 else 0}"
 
 
 def double_lines(ctx):
@@ -708,7 +745,9 @@ def check(ctx):
     ctx.assumptions += [
         "libc as specified by ISO C11 / glibc on LP64: vsnprintf with %d %u %lld %llu prints the decimal text (minus sign, no padding) and returns its length; "
         "strtol/strtoul/strtoll/strtoull(s, 0, 10) skip white space, take an optional sign and the longest digit prefix, clamp out-of-range magnitudes; "
-        "atoi = (int)strtol, atoll = strtoll (Lean definitions in Nstd/Codec/Model.lean; exercised on the real libc by the correspondence run only)",
+        "atoi = (int)strtol (ISO C: undefined outside the int range; glibc: conversion modulo 2^32), atoll = strtoll (Lean definitions in Nstd/Codec/Model.lean; compared with direct calls of the real libc by the lcs/lcf lines of every run)",
+        "printf(\"%f\") prints the exact value rounded to six decimals, ties to even (Lean definition fmtF, compared with the real libc on every fd line); strtod is exact on decimal texts whose value is a double (StrtodExact: hypothesis of double_roundtrip_exact)",
+        "<cctype> classification in the \"C\" locale (Lean definitions cIs*, compared for all 256 bytes)",
         "char is 8 bits; `ch & M` with M <= 0xff on a (signed) char sees the byte value; uint32 arithmetic wraps modulo 2^32; usize is 64 bits",
         "a byte range handed to Unicode::fromString/isValid is modelled as a list with an explicit length; reads outside [0,len) are faults of the model (.oob) and ASan reports of the harness (exactly sized heap blocks)",
         "String::reserve(n) provides at least n writable bytes (+ terminator), String::resize(j) with j <= capacity keeps the first j bytes (area Str)",
